@@ -628,3 +628,51 @@ Lemma no_filters cur include exclude st :
   set_include_and_exclude cur empty_state include exclude = Some st ->
   include = [] -> exclude = [] -> forall t, state_should_include st t = true.
 Proof. intros H -> -> t. exact (no_filters_selects_all cur st t H). Qed.
+
+(* ---- the defect class, characterised ---------------------------------------------------------------------- *)
+Lemma confused_true st t :
+  confused st t = true <->
+  exists e, In e (st_exclude_targets st) /\ denotes_names e (t_label t) /\ l_sub e <> t_sub t.
+Proof.
+  unfold confused. rewrite existsb_exists. split.
+  - intros [e [He Hc]]. apply andb_true_iff in Hc as [Hi Hs]. exists e. split; [exact He|]. split.
+    + apply includes_spec. exact Hi.
+    + apply negb_true_iff, str_eqb_neq in Hs. exact Hs.
+  - intros [e [He [Hd Hs]]]. exists e. split; [exact He|]. apply andb_true_iff. split.
+    + apply includes_spec. exact Hd.
+    + apply negb_true_iff, str_eqb_neq. exact Hs.
+Qed.
+
+(* no exclude expression names another repository than the target's: outside the defect class *)
+Lemma confused_one_repo st t :
+  (forall e, In e (st_exclude_targets st) -> l_sub e = t_sub t) -> confused st t = false.
+Proof.
+  intros H. apply confused_false. intros e He _. cbn [t_label l_sub]. symmetry. apply H. exact He.
+Qed.
+
+(* Includes is exact between labels of one repository *)
+Lemma includes_same_repo e that : l_sub that = l_sub e -> (includes e that = true <-> denotes e that).
+Proof.
+  intros Hs. rewrite includes_spec. unfold denotes. split; [intros H; split; assumption | intros [_ H]; exact H].
+Qed.
+
+(* ... and blind to the repository: //p:x "includes" ///s//p:x *)
+Lemma includes_ignores_subrepo :
+  let e := {| l_sub := []; l_pkg := s "p"; l_name := s "x" |} in
+  let that := {| l_sub := s "s"; l_pkg := s "p"; l_name := s "x" |} in
+  includes e that = true /\ ~ denotes e that.
+Proof. cbv zeta. split; [reflexivity|]. intros [H _]. discriminate. Qed.
+
+Lemma expand_pseudo_sound_nodup cur include exclude st g L jt :
+  set_include_and_exclude cur empty_state include exclude = Some st ->
+  wf_graph g -> is_pseudo L = true ->
+  (forall lbl, In lbl (expand_pseudo st g L jt) ->
+     exists p t, In p g /\ In t (p_targets p) /\ t_label t = lbl
+                 /\ (jt = true -> t_test t = true) /\ selected cur include exclude t)
+  /\ NoDup (expand_pseudo st g L jt).
+Proof.
+  intros Hset Hwf Hps. split; [|apply expand_pseudo_nodup; exact Hwf].
+  intros lbl Hin. destruct (expand_pseudo_sound cur include exclude st g L jt lbl Hset Hwf Hps Hin)
+    as [p [t [H1 [_ [H3 [H4 [H5 H6]]]]]]].
+  exists p, t. repeat split; assumption.
+Qed.
